@@ -469,14 +469,26 @@ CWRAPPER_OUTPUT_TYPE integer_get_mpz(mpz_t a, const basic s)
 CWRAPPER_OUTPUT_TYPE rational_set_si(basic s, long a, long b)
 {
     CWRAPPER_BEGIN
-    basic_rcp(s) = SymEngine::Rational::from_mpq(rational_class(a, b));
+    if (b == 0) {
+        // as Rational::from_two_ints: zoo, or nan for 0/0
+        basic_rcp(s) = SymEngine::Rational::from_two_ints(
+            *SymEngine::integer(a), *SymEngine::integer(b));
+    } else {
+        basic_rcp(s) = SymEngine::Rational::from_mpq(rational_class(a, b));
+    }
     CWRAPPER_END
 }
 
 CWRAPPER_OUTPUT_TYPE rational_set_ui(basic s, unsigned long a, unsigned long b)
 {
     CWRAPPER_BEGIN
-    basic_rcp(s) = SymEngine::Rational::from_mpq(rational_class(a, b));
+    if (b == 0) {
+        basic_rcp(s) = SymEngine::Rational::from_two_ints(
+            *SymEngine::integer(integer_class(a)),
+            *SymEngine::integer(integer_class(b)));
+    } else {
+        basic_rcp(s) = SymEngine::Rational::from_mpq(rational_class(a, b));
+    }
     CWRAPPER_END
 }
 
@@ -485,10 +497,11 @@ CWRAPPER_OUTPUT_TYPE rational_set(basic s, const basic a, const basic b)
     if (not is_a_Integer(a) or not is_a_Integer(b)) {
         return SYMENGINE_RUNTIME_ERROR;
     }
+    CWRAPPER_BEGIN
     basic_rcp(s) = SymEngine::Rational::from_two_ints(
         *(rcp_static_cast<const Integer>(basic_rcp(a))),
         *(rcp_static_cast<const Integer>(basic_rcp(b))));
-    return SYMENGINE_NO_EXCEPTION;
+    CWRAPPER_END
 }
 
 #if SYMENGINE_INTEGER_CLASS != SYMENGINE_BOOSTMP
